@@ -19,11 +19,15 @@ RULE = ("a case = (type hint, input, channel). Type hints: every hint of the gra
         "Union, every item under the item type (Python-object containers), and the same input under the hint with the members "
         "of one Union node (any depth) permuted — all permutations, capped at 6 (quick) / 30 (thorough) variants per case. "
         "Ext cases (Model/C02Ext.v): Unions of 2-3 members of which at least one is a registered/restricted type (PositiveFloat, "
-        "PositiveInt, NonNegativeInt, ClosedUnitInterval, decimal.Decimal; their adapt_typehints behaviour per value is recorded "
+        "PositiveInt, NonNegativeInt, ClosedUnitInterval, decimal.Decimal, the restricted strings Email and NotEmptyStr, a str-mixin "
+        "Enum; their adapt_typehints behaviour per value is recorded "
         "from the real run) with ints beyond the float range, non-numeric strings, numeric text, bools, lists ..., every member "
         "alone and every permutation; plain scalar / Optional / Union / Literal hints with every conforming declared default "
         "(0, 1, 2, 0.0, 1.0, 2.0, False, True, 'a', '1', 'null', 'true') x every scalar value incl. equal-but-other-kind ones "
         "(True vs 1 vs 1.0, 0 vs False) as typed objects and as text. "
+        "Set cases: Set[T] (also inside List/Dict/Optional/Tuple) for ten item types given ORDERED inputs (list, tuple, text) "
+        "containing every ordered pair of == items of different kinds (1/True/1.0, 0/False/0.0, 2/2.0), alone and with company, "
+        "plus conforming and random item sequences; every item stand-alone. "
         "Group cases: a parser with nested keys g.<field>, parse_object({'g': value}) for scalar / list / mapping values. "
         "distinct = distinct (hint, input, channel); non-trivial = hint is not a bare leaf type or the input is text")
 TRUSTED = [
@@ -42,7 +46,8 @@ ASSUMPTIONS = [
     "registered/restricted members are opaque: what adapt_typehints(value, member) returns or that it raises is observed, and any "
     "exception counts as a member failure (as `except Exception` in the trial loop does); they occur only as direct Union members",
     "an int beyond the float range is not given to a modelled `float` member (Model/Ty.v's float(int) has no OverflowError branch)",
-    "floats are compared as decimals (<= 15 significant digits); set items are ints and strs (canonical order)",
+    "floats are compared as decimals (<= 15 significant digits); a resulting set is compared in the canonical order ints, strs, "
+    "False, True, then at most one other item",
     "typing normalises hints (flattens nested Unions, deduplicates members): generated hints are already normal, the runner "
     "fails closed if typing changed one",
     "an Enum instance of the declared class is one of its members; Enum member names are identifiers",
@@ -506,13 +511,16 @@ def group_cases(rng, tier):
 # -----------------------------------------------------------------------------------------------------------------
 # cases with registered / restricted Union members (opaque: behaviour observed) and with declared defaults
 # -----------------------------------------------------------------------------------------------------------------
-OPQ = ["PositiveFloat", "PositiveInt", "ClosedUnitInterval", "NonNegativeInt", "Decimal"]
-X_MODELLED = [["int"], ["str"], ["bool"], ["float"], ["none"], ["list", ["int"]], ["lit", [["int", "1"], ["int", "2"]]]]
+OPQ = ["PositiveFloat", "PositiveInt", "ClosedUnitInterval", "NonNegativeInt", "Decimal", "Email", "NotEmptyStr", "StrColor"]
+X_MODELLED = [["int"], ["str"], ["bool"], ["float"], ["none"], ["list", ["int"]], ["lit", [["int", "1"], ["int", "2"]]],
+              ["dict", "str", ["int"]]]
 BIG = 10 ** 400
 X_VALUES = [["int", "1"], ["int", "-1"], ["int", "0"], ["int", "2"], ["float", "0.5"], ["float", "2.5"], ["float", "1.0"],
             ["int", str(BIG)], ["int", str(-BIG)], ["str", "abc"], ["str", "0.25"], ["str", "1e3"], ["str", "inf"],
             ["str", "2"], ["str", "-3"], ["str", "null"], ["list", [["int", "1"], ["int", "2"]]],
-            ["list", [["str", "a"]]], ["bool", True], ["bool", False], ["str", "[1, 2]"], ["str", "true"], ["str", ""]]
+            ["list", [["str", "a"]]], ["bool", True], ["bool", False], ["str", "[1, 2]"], ["str", "true"], ["str", ""],
+            ["str", "a@b.c"], ["str", "RED"], ["str", "red"], ["str", "[]"], ["str", "{}"], ["str", '{"a": 1}'], ["str", "~"],
+            ["dict", [[["str", "a"], ["int", "1"]]]], ["none"]]
 
 
 def mentions_float(m):
@@ -592,6 +600,62 @@ def x_cases(rng, tier):
     return cases
 
 
+# Set hints given ORDERED inputs (list / tuple / text) whose items are == but of different kinds, in both orders: the items
+# are adapted one by one, equal results collapse only in the set that is built at the end
+SET_ITEMS = [["int", "1"], ["bool", True], ["float", "1.0"], ["int", "0"], ["bool", False], ["float", "0.0"], ["int", "2"],
+             ["float", "2.0"], ["int", "7"], ["str", "1"], ["str", "a"], ["none"], ["float", "0.5"], ["str", "true"]]
+
+
+EQ_CLASSES = [[["int", "1"], ["bool", True], ["float", "1.0"]], [["int", "0"], ["bool", False], ["float", "0.0"]],
+              [["int", "2"], ["float", "2.0"]]]
+
+
+def set_cases(rng, tier):
+    quick = tier == "quick"
+    I, B, F, S = ["int"], ["bool"], ["float"], ["str"]
+    elem = [I, B, S, ["lit", [["int", "1"], ["int", "2"]]], mk_union([I, S]), mk_union([I, B]), mk_union([B, I]), mk_union([I, ["none"]]),
+            F, mk_union([S, I])]
+    wrap = [lambda t: ["set", t], lambda t: ["list", ["set", t]], lambda t: ["dict", "str", ["set", t]],
+            lambda t: mk_union([["set", t], ["none"]]), lambda t: ["tuple", [["set", t], ["int"]]]]
+    cases = []
+    for t in elem:
+        seqs = []
+        for cls in EQ_CLASSES:                     # every ordered pair of == items of different kinds, alone and with company
+            for a, b in itertools.permutations(cls, 2):
+                seqs.append([a, b])
+                if not quick or rng.random() < 0.3:
+                    seqs.append([rng.choice(SET_ITEMS), a, b] if rng.random() < 0.5 else [a, rng.choice(SET_ITEMS), b])
+        good = [x for x in SET_ITEMS if scalar_conforms(x, t)] or SET_ITEMS
+        for _ in range(10 if quick else 60):
+            pool = good if rng.random() < 0.7 else SET_ITEMS
+            seqs.append([rng.choice(pool) for _ in range(rng.choice([1, 2, 3]))])
+        for items in seqs:
+            # the canonical order of a resulting set is fixed for ints and strs only: at most one other distinct result
+            if t == F and len({float(x[1]) for x in items if x[0] in ("int", "float")}) > 1:
+                continue
+            w = rng.randrange(len(wrap)) if rng.random() < 0.35 else 0
+            outer = rng.choice(["list", "tuple", "text"])
+            seq = ["list" if outer != "tuple" else "tuple", items]
+            if w == 0:
+                v = seq
+            elif w == 1:
+                v = ["list", [seq]]
+            elif w == 2:
+                v = ["dict", [[["str", "a"], seq]]]
+            elif w == 3:
+                v = seq
+            else:
+                v = ["tuple", [seq, ["int", "3"]]]
+            ty = wrap[w](t)
+            if outer == "text":
+                txt = to_text(rng, v)
+                if txt is None:
+                    continue
+                v = ["str", txt]
+            cases.append(make_case(rng, ty, v, 6))
+    return cases
+
+
 def generate(rng, tier):
     quick = tier == "quick"
     cap = 6 if quick else 30
@@ -632,7 +696,7 @@ def generate(rng, tier):
                 add(t, None if s is None else ["str", s])
             else:
                 add(t, ["str", rng.choice(STRS)])
-    return witness_cases(rng) + group_cases(rng, tier) + x_cases(rng, tier) + cases
+    return witness_cases(rng) + group_cases(rng, tier) + x_cases(rng, tier) + set_cases(rng, tier) + cases
 
 
 # -----------------------------------------------------------------------------------------------------------------
@@ -827,7 +891,7 @@ def g_member(m):
 def term(case, obs):
     if case["kind"] == "x":
         orc = g_list([g_pair(g_str(s), g_lres(o)) for s, o in obs["oracle"].items()], "(str * lres)")
-        tbl = g_list(["(%s, %s, %s)" % (g_str(n), g_val(b), "AErr ErrValue" if a is None else "AOk (%s)" % g_val(a))
+        tbl = g_list(["(%s, %s, %s)" % (g_str(n), g_val(b), ("AErr ErrValue" if a[1] == "value" else "AErr ErrType") if a[0] == "err" else "AOk (%s)" % g_val(a))
                       for n, b, a in obs["rec"]], "(str * val * ares)")
         perms = g_list([g_pair(g_list(["%d%%nat" % i for i in pm], "nat"), g_bool(a)) for pm, a in zip(case["perms"], obs["perms"])],
                        "(list nat * bool)")
@@ -949,7 +1013,7 @@ def describe(case, obs):
             d["each member alone"] = ["%s: %s" % (show_member(m), "accepted" if a else "rejected") for m, a in zip(ms, obs["parts"])]
             d["members permuted"] = ["Union[%s]: %s" % (", ".join(show_member(ms[i]) for i in pm), "accepted" if a else "rejected")
                                      for pm, a in zip(case["perms"], obs["perms"])]
-        d["adapt_typehints(value, registered member) observed"] = ["%s <- %s: %s" % (n, show_val(b)[:40], "raised" if a is None else show_val(a)[:40])
+        d["adapt_typehints(value, registered member) observed"] = ["%s <- %s: %s" % (n, show_val(b)[:40], ("raised " + a[1].capitalize() + "Error-like") if a[0] == "err" else show_val(a)[:40])
                                                                   for n, b, a in obs["rec"]]
         return d
     if case["kind"] == "group":
@@ -1026,16 +1090,16 @@ META = {
                   "validate (the pinned tree plus the one unapplied dict-key repair): C02_sound_repaired (accepted => exact declared shape: Python kind at every "
                   "level, arity, strict Literal/Enum membership, key kinds), C02_never_rejects_right_shape_repaired, "
                   "C02_recheck_passes_repaired, C02_union_order_independent_repaired (all inputs), C02_union_iff_some_member_repaired, "
-                  "C02_list/tuple/dict_iff_*_repaired (Python objects). For the model of the pinned tree on every input inside the "
+                  "C02_list/tuple/dict/set_iff_*_repaired (Python objects). For the model of the pinned tree on every input inside the "
                   "executable guard (no recorded defect changes the outcome for that input): C02_sound, C02_never_rejects_right_shape, "
-                  "C02_union_order_independent_parse, C02_union_iff_some_member_parse, C02_list_iff_items_parse. For the pinned tree "
+                  "C02_union_order_independent_parse, C02_union_iff_some_member_parse, C02_list_iff_items_parse, C02_set_iff_items_parse. For the pinned tree "
                   "unconditionally, at the level of adapt_typehints / the first pass: C02_list/tuplevar/tuple/dict_iff_*, "
                   "C02_union_iff_some_member, C02_union_order_independent, C02_first_pass_union_order_independent. Eight `_refuted` "
                   "witnesses show where the pinned tree breaks the full statements. Correspondence: real parser vs model on generated "
                   "(hint, input) pairs incl. the permutations of every Union node and every item/member stand-alone; soundness, "
                   "never-reject-a-right-shaped-value and compositionality of the OBSERVED behaviour are judged inside Coq "
                   "against Spec/Conforms.v.",
-    "level_note": "Only exercised by the correspondence, not proved: item = stand-alone acceptance for str items; Set and Dict[int,.] "
+    "level_note": "Only exercised by the correspondence, not proved: item = stand-alone acceptance for str items; Dict[int,.] "
                   "compositionality; the group-key model (Spec/C02Group.v: witness and per-case judgement only). The guard is semantic "
                   "(pinned model = repaired model on this input), evaluated per case by the judge. Restricted types are covered by C20, "
                   "paths by C19; Callable, Type[...], TypedDict, Annotated, dataclass/subclass hints are not modelled. Trusted: Coq "
